@@ -16,6 +16,9 @@ impl   : real solver over real DSLEvaluator (in process)
 model  : PS.C10.solve (driver op c10.session) over the C11 evaluator model; the answer also carries
          the Lean spec (specYields, sat, verdict, horizon) computed from the compositional semantics
 oracle : this file's reading of the English statement, evaluating with gen.denote only
+
+A second kind of case (kind "restart", 30% of the quick cases / 6% of the thorough ones) drives RestartPBESolver over
+both sub-solvers on real enumerators: harness/c10_restart.py (gen/check/shrink/corpus are dispatched from here).
 """
 import itertools
 import json
